@@ -202,8 +202,10 @@ func checkC07(c *core.Ctx, r *core.Report) {
 	_ = bulk
 
 	getAndInc := c.Fn(pkgSuffix, "getAndIncrementSuffixFromFile")
-	writeSuffix := c.Obj(pkgSuffix, "writeSuffix")
-	checkBeforeSuccessReturn(c, r, getAndInc, "writeSuffix", sm.mustPred(objs(writeSuffix)),
+	// the persisting step is the rename that publishes the new suffix file, made by getAndIncrement itself
+	// or by a helper that has renamed whenever it reports success (today: writeSuffix)
+	persists := sm.successMustPred(objs(c.ExtObj("os", "Rename")))
+	checkBeforeSuccessReturn(c, r, getAndInc, "writeSuffix", persists,
 		"a suffix handed out without being persisted is handed out again after a restart and later ingestion overwrites recovered data")
 	// the persisted value must be past the returned one: an increment of NextSuffix precedes writeSuffix
 	nextSuffix := c.Field(pkgSuffix, "entry.NextSuffix")
@@ -218,7 +220,7 @@ func checkC07(c *core.Ctx, r *core.Report) {
 					}
 				}
 			}
-			if ci, ok := in.(ssa.CallInstruction); ok && core.IsCallTo(ci, writeSuffix) {
+			if ci, ok := in.(ssa.CallInstruction); ok && persists(ci) {
 				reached = in
 			}
 			return true
